@@ -80,7 +80,9 @@ package tredactemail
 //@   ghostset scanend := sAt
 //@   ensures  result.1 >= 0
 //@   ensures[scan-reaches-the-end] forall q int :: scanend <= q && q < len(src) - 1 ==> src[q] != 64
+//@   ensures[count-is-zero-only-if-nothing-was-redacted] result.1 == 0 ==> result.0 == src
 //@   loop 1: invariant sEnd == len(src) - 1 && 0 <= sCopied && sCopied <= sAt && sAt < len(src) && src[sAt] == 64 && numRedacted >= 0 && start <= sAt && isfresh(dst)
+//@   loop 1: invariant[nothing-written-before-the-first-redaction] numRedacted == 0 ==> len(dst) == 0 && sCopied == 0
 //@   loop 1: step[no-at-sign-skipped] forall q int :: prev(sAt) < q && q < sAt ==> src[q] != 64 || q < sCopied
 //@   loop 1: step[written-output-kept] len(dst) >= prev(len(dst)) && forall i int :: 0 <= i && i < prev(len(dst)) ==> dst[i] == prev(dst[i])
 //@   loop 1: step[nothing-appended-without-a-redaction] numRedacted == prev(numRedacted) ==> len(dst) == prev(len(dst)) && sCopied == prev(sCopied)
